@@ -203,11 +203,11 @@ func runC12Lin(p *Plan) *Result {
 	if sim.Overrun {
 		res.Infra = "scheduler step budget exceeded"
 	}
-	res.Steps = sim.steps
+	res.Steps = sim.totalSteps()
 	res.Nontrivial = overlap
 	res.TraceHash = hash64(sim.TraceString())
 	res.SchedHash = res.TraceHash
 	res.SimSecs = time.Since(sim.epoch).Seconds()
-	res.Summary = fmt.Sprintf("mode=concurrent-memory clients=%d ops=%d steps=%d", len(clients), len(all), sim.steps)
+	res.Summary = fmt.Sprintf("mode=concurrent-memory clients=%d ops=%d steps=%d", len(clients), len(all), sim.totalSteps())
 	return res
 }
